@@ -1350,3 +1350,30 @@ Check C02_eval_all_extends_full : forall o release d c e,
   fst (evalD release binop_impl builtin_full d c e) <> Unmodelled ->
   evalD release (binop_all o) (builtin_all o) d c e = evalD release binop_impl builtin_full d c e.
 Print Assumptions C02_eval_all_extends_full.
+
+(* the two-statement law (one or several occurrences: sctx is contained in sctxs, [C02_sctx_is_sctxs]) after ANY program
+   prefix from function-free inputs, complete built-in set, every blind oracle: no hypothesis on the configuration *)
+Theorem C02_let_program_multi_after_any_prefix_all : forall o, lam_str_blind o ->
+  forall release d0 d inputs prog x s C_x C_s v c1 rA cA rB cB,
+  frame_lt 0 inputs = true ->
+  let c := s_cfg (fst (run (evalD release (binop_all o) (builtin_all o) d0) (init_session inputs) prog)) in
+  no_assign s = true -> no_assign C_s = true -> sctxs x s C_x C_s ->
+  nocc x s = true -> nocc x C_s = true -> frames_nm x (snd c) = true ->
+  evalD release (binop_all o) (builtin_all o) d c (EAssign x s) = (Ok v, c1) ->
+  cell_free v = true ->
+  evalD release (binop_all o) (builtin_all o) d c1 C_x = (rA, cA) ->
+  evalD release (binop_all o) (builtin_all o) d c C_s = (rB, cB) ->
+  osame rA rB.
+Proof. exact let_program_multi_after_prefix_all. Qed.
+Check C02_let_program_multi_after_any_prefix_all : forall o, lam_str_blind o ->
+  forall release d0 d inputs prog x s C_x C_s v c1 rA cA rB cB,
+  frame_lt 0 inputs = true ->
+  let c := s_cfg (fst (run (evalD release (binop_all o) (builtin_all o) d0) (init_session inputs) prog)) in
+  no_assign s = true -> no_assign C_s = true -> sctxs x s C_x C_s ->
+  nocc x s = true -> nocc x C_s = true -> frames_nm x (snd c) = true ->
+  evalD release (binop_all o) (builtin_all o) d c (EAssign x s) = (Ok v, c1) ->
+  cell_free v = true ->
+  evalD release (binop_all o) (builtin_all o) d c1 C_x = (rA, cA) ->
+  evalD release (binop_all o) (builtin_all o) d c C_s = (rB, cB) ->
+  osame rA rB.
+Print Assumptions C02_let_program_multi_after_any_prefix_all.
